@@ -1,6 +1,7 @@
 package main
 
 import (
+	"strings"
 	"bufio"
 	"encoding/json"
 	"flag"
@@ -113,7 +114,7 @@ func replayLines() []string {
 	sc := bufio.NewScanner(f)
 	sc.Buffer(make([]byte, 1<<20), 1<<24)
 	for sc.Scan() {
-		if l := sc.Text(); l != "" {
+		if l := sc.Text(); l != "" && !strings.HasPrefix(l, "#") {
 			ls = append(ls, l)
 		}
 	}
